@@ -188,20 +188,6 @@ def and_mask_formula(x, m):
     return total
 
 
-def or_within_mask(x, y, M):
-    """x | y for ints x, y where y has no bits outside the constant mask M >= 0 (0 <= y, y & ~M == 0), in integer
-    arithmetic; dual use (symbolic or plain ints); cross-checked against CPython's | by the static check
-    `bit-formulas-agree-with-cpython` of contracts/C18_colours.py."""
-    total = x - and_mask_formula(x, M)
-    k = 0
-    while (1 << k) <= M:
-        if M >> k & 1:
-            xb, yb = (x // (1 << k)) % 2, (y // (1 << k)) % 2
-            total = total + (1 << k) * (xb + yb - xb * yb if isinstance(xb, int) and isinstance(yb, int) else imax(xb, yb))
-        k += 1
-    return total
-
-
 class Interp:
     """One interpreter per verification task."""
 
@@ -1098,29 +1084,7 @@ class Interp:
             x, m = (b, a) if isinstance(a, int) else (a, b)
             if m >= 0:
                 return and_mask_formula(x, m)
-        if t is ast.BitAnd and (isinstance(a, int) or isinstance(b, int)):
-            # x & m for a constant m < 0 (`value & ~MASK`): m = ~M with M >= 0, and x & ~M = x - (x & M) for every int x
-            x, m = (b, a) if isinstance(a, int) else (a, b)
-            return x - and_mask_formula(x, ~m)
-        or_masks = getattr(getattr(self.task, "c", None), "or_masks", None)  # opt-in (a contract attribute)
-        if or_masks is not None and t is ast.BitOr and (isinstance(a, int) or isinstance(b, int)):
-            # x | m for a constant m >= 0: x | m = x + m - (x & m) for every int x
-            x, m = (b, a) if isinstance(a, int) else (a, b)
-            if m >= 0:
-                return x + m - and_mask_formula(x, m)
-        if or_masks is not None and t is ast.BitOr:
-            # x | y where y provably has no bits outside a constant mask M the contract names (`or_masks`):
-            # x | y = (x - (x & M)) + sum over the bits b of M of 2^b * max(bit_b(x), bit_b(y)), bit_b(z) = (z // 2^b) % 2
-            for M in or_masks:
-                for x, y in ((a, b), (b, a)):
-                    inside = both(V._cmp(">=", y, 0), V._cmp("==", y, and_mask_formula(y, M)))
-                    if inside is False:
-                        continue
-                    if inside is not True:
-                        r, _m = st._check(z3.Not(V._zb(inside)), st.cfg.branch_timeout_ms)
-                        if r != z3.unsat:
-                            continue
-                    return or_within_mask(x, y, M)
+        if t is ast.BitOr:
             for k in (6, 12, 18, 8, 16, 4, 2, 1, 24, 7, 9, 10, 32):
                 for x, y in ((a, b), (b, a)):
                     cond = both(V._cmp("==", x % (1 << k), 0) if not isinstance(x, int) else x % (1 << k) == 0, V._cmp(">=", y, 0), V._cmp("<", y, 1 << k), V._cmp(">=", x, 0))
